@@ -868,6 +868,23 @@ FOUR = ("transform", "transform_and_log_det", "inverse", "inverse_and_log_det")
 MAX_INLINE = 8
 
 
+# value of wrappers.Lambda(fn, *args, **kwargs).unwrap() = fn(*args, **kwargs), computed where the Lambda is
+# constructed (fn still a closure / partial / callable instance): (id(program), key(Lambda term)) -> value term
+LAMBDA_VALUES: dict = {}
+
+
+def lambda_normal(prog, t):
+    """Replace each wrappers.Lambda(...) subterm whose value is known by Lambda$value(value): two Lambdas that unwrap
+    to the same value compare equal however the callable is spelled (closure, partial, callable class)."""
+    def f(s):
+        if s[0] == "call" and s[1] == ("ext", "flowjax.wrappers.Lambda"):
+            v = LAMBDA_VALUES.get((id(prog), key(s)))
+            if v is not None:
+                return ("call", ("ext", "flowjax.wrappers.Lambda$value"), (v,), ())
+        return None
+    return subst(t, f)
+
+
 class Interp:
     def __init__(self, prog: Program, *, inline_repo=True, fold_classvars=True,
                  no_inline: set[str] | None = None):
@@ -1976,12 +1993,41 @@ class Interp:
                 return ("tuple", tuple(("tuple", (k, v)) for k, v in obj[1]))
             if name == "values" and obj[0] == "dict" and not args:
                 return ("tuple", tuple(v for k, v in obj[1]))
+        if isinstance(f, tuple) and f[0] == "call" and f[1][0] == "ext" and f[1][1].startswith("flowjax") and self.inline_repo:
+            # calling an instance of a package class that defines __call__ (a callable object in place of a closure)
+            r = self.prog.lookup(f[1][1])
+            rc = self.prog.find_method(r[1], "__call__") if r and r[0] == "class" else None
+            qn = f"{f[1][1]}.__call__"
+            if rc is not None and qn not in self.no_inline and self.stack.count(qn) == 0 and \
+                    not any(k.qualname in ("flowjax.bijections.bijection.AbstractBijection",
+                                           "flowjax.distributions.AbstractDistribution") for k in self.prog.mro(r[1])):
+                fields = self.eval_init(r[1], list(f[2]), dict(f[3]))
+                inst = ("sym", "inst$" + key(f)[:10])
+                saved = self.self_fields
+                self.self_fields = dict(fields)
+                self.stack.append(qn)
+                try:
+                    return self.apply_method(rc[1], (rc[0].module, r[1], inst), [inst] + list(args), kwargs)
+                finally:
+                    self.stack.pop()
+                    self.self_fields = saved
         if isinstance(f, tuple) and f[0] == "ite":
             # (g if c else h)(args) == g(args) if c else h(args)
             return mk_ite(f[1], self.as_term(self.call(f[2], args, kwargs, ctx, node)),
                           self.as_term(self.call(f[3], args, kwargs, ctx, node)))
+        lam_val = None
+        if isinstance(f, tuple) and f == ("ext", "flowjax.wrappers.Lambda") and (args or "fn" in kwargs) and not opaque_args:
+            fn0 = args[0] if args else kwargs["fn"]
+            try:
+                lam_val = self.as_term(self.call(fn0, list(args[1:]), {k: v for k, v in kwargs.items() if k != "fn"}, ctx))
+            except AnalysisError:
+                lam_val = None
         targs = [self.as_term(a) for a in args]
         tkw = {k: self.as_term(v) for k, v in kwargs.items()}
+        if lam_val is not None and not has_unknown(lam_val):
+            t_lam = norm_call(f, targs, tkw, self.prog)
+            LAMBDA_VALUES[(id(self.prog), key(t_lam))] = lam_val
+            return t_lam
         if isinstance(f, tuple) and f[0] == "ext" and f[1].startswith("operator.") and len(targs) == 2 and not tkw:
             opn = f[1].split(".", 1)[1]
             cm = {"ge": ">=", "gt": ">", "le": "<=", "lt": "<", "eq": "==", "ne": "!="}
